@@ -41,7 +41,8 @@ EXHAUSTIVE = {"quick": "success/failure strings up to length 8; full-alphabet st
               "thorough": "success/failure strings up to length 10; full-alphabet strings up to length 5"}
 REACH = {t: ["raising_feed", "reset_by_success_at_each_run_length", "failure_in_first_command",
              "failure_in_second_command", "period_boundary_crossed", "v4_nop", "timeout_failure",
-             "invalid_command_failure", "stopped_failure", "raise_twice_in_a_row"] for t in ("quick", "thorough")}
+             "invalid_command_failure", "stopped_failure", "raise_twice_in_a_row", "closed_failure",
+             "few_free_buffers_reported"] for t in ("quick", "thorough")}
 SHARD_TIMEOUT = {"quick": 900, "thorough": 3600}
 
 
@@ -50,7 +51,7 @@ def shards(tier, seed):
     out = []
     for v in vs:
         out.append({"version": v, "part": "strings", "lsf": 8 if tier == "quick" else 10,
-                    "lfull": 4 if tier == "quick" else 5, "seed": seed})
+                    "lfull": 4 if tier == "quick" else 5, "seed": seed, "last": True})
         out.append({"version": v, "part": "period", "seed": seed})
     return out
 
@@ -88,6 +89,7 @@ def run_shard(desc) -> Acc:
         ncp.script = script
         consec = 0
         feeds = 0
+        closed = [False]
         run_lengths_reset = set()
         prev_raised = False
 
@@ -97,9 +99,20 @@ def run_shard(desc) -> Acc:
             feeds += 1
             acc.ev("feeds")
             plan["first"] = plan["second"] = None
+            # what the NCP reports as free buffers varies from feed to feed (incl. nearly none)
+            ap.net.free_buffers = rnd.choice([0, 1, 3, 7, 8, 0x20, 0xF0, 0xFF])
+            if ap.net.free_buffers < 8:
+                acc.hit("few_free_buffers_reported")
+            if sym == "C":
+                if not closed[0]:
+                    closed[0] = True
+                    ez.close()  # what enter_failed_state() does; the watchdog keeps feeding afterwards
+                acc.hit("closed_failure")
             if sym == "X":
                 ez.stop_ezsp()
                 acc.hit("stopped_failure")
+            elif sym == "C":
+                pass
             elif sym != "S":
                 plan["first" if sym[1] == 1 else "second"] = sym[0]
                 acc.hit("failure_in_first_command" if sym[1] == 1 else "failure_in_second_command")
@@ -134,7 +147,7 @@ def run_shard(desc) -> Acc:
                     acc.hit("raise_twice_in_a_row")
             prev_raised = bool(raised)
             # keep-alive command identity
-            if sym != "X":
+            if sym not in ("X", "C"):
                 if V == 4:
                     if cmds[:1] != ["nop"] or len(cmds) != 1:
                         acc.violation("C19/keepalive/not-nop-on-v4", f"v4 feed issued {cmds}", case)
@@ -148,12 +161,16 @@ def run_shard(desc) -> Acc:
         if desc["part"] == "period":
             clears = []
             for k in range(1, 401):
+                # (a few isolated failures on the way: they never add up to a run)
+                if k % 37 == 5:
+                    await feed(("T", 1), {"version": V, "part": "period", "feed": k})
+                    continue
                 cmds = await feed("S", {"version": V, "part": "period", "feed": k})
                 if V != 4 and cmds and cmds[0] == "readAndClearCounters":
                     clears.append(k)
                 acc.case()
             if V != 4:
-                want = [k for k in range(1, 401) if k % PERIOD == 0]
+                want = [k for k in range(1, 401) if k % PERIOD == 0 and k % 37 != 5]
                 if clears != want:
                     acc.violation("C19/keepalive/clear-period", f"read-and-clear on feeds {clears}, expected {want} (period {PERIOD})",
                                   {"version": V, "part": "period"})
@@ -194,6 +211,15 @@ def run_shard(desc) -> Acc:
                 await play(list(string), "full")
         if run_lengths_reset >= set(range(1, MAXF + 2)):
             acc.hit("reset_by_success_at_each_run_length")
+        if V == 4 and desc.get("last"):
+            # the EZSP object is closed for good (NCP failure was handled) while the watchdog keeps feeding:
+            # each feed fails with an EZSP error and the run is counted like any other (v4: the keep-alive
+            # goes through the EZSP command gate; on later versions a closed gateway is outside the property)
+            case = {"version": V, "string": ["S", "S"] + ["C"] * (MAXF + 3), "label": "closed"}
+            acc.case()
+            for s_ in ["S", "S"] + ["C"] * (MAXF + 3):
+                await feed(s_, case)
+            acc.nontrivial((V, "closed"))
         acc.sample({"version": V, "example_string": ["F"] * (MAXF + 1) + ["S"], "expected": "raise on failure %d only" % (MAXF + 1)})
 
     try:
